@@ -5,7 +5,12 @@ use super::{Read, INITIAL_BUFFER_CAPACITY};
 /// Stdin which is not attached to a terminal, i.e. piped.
 #[derive(Debug)]
 pub struct Stdin {
+    #[cfg(not(lace_verif))]
     stdin: io::Stdin,
+    // Under verification every read this reader makes, however it is structured, goes through
+    // the seam (which serves the simulated stream while armed, the real one otherwise)
+    #[cfg(lace_verif)]
+    stdin: crate::verif::StdinSeam,
     /// Command must be stored somewhere to be referenced.
     buffer: String,
     /// Byte which was read while decoding a malformed character, but does not belong to it.
@@ -14,6 +19,8 @@ pub struct Stdin {
 
 impl Stdin {
     pub fn from(stdin: io::Stdin) -> Self {
+        #[cfg(lace_verif)]
+        let stdin = crate::verif::StdinSeam(stdin);
         Self {
             stdin,
             buffer: String::with_capacity(INITIAL_BUFFER_CAPACITY),
@@ -62,13 +69,6 @@ impl Stdin {
     /// `None` indicates EOF.
     fn read_byte(&mut self) -> Option<u8> {
         let mut buf = [0; 1];
-        #[cfg(lace_verif)]
-        if let Some(bytes_read) = crate::verif::stdin_read(&mut buf) {
-            if bytes_read == 0 {
-                return None;
-            }
-            return Some(buf[0]);
-        }
         let bytes_read = self
             .stdin
             .read(&mut buf)
